@@ -39,6 +39,9 @@ typedef struct lltd_iface_state {
 
 static lltd_iface_state *g_iface_states = NULL;
 
+/* Upper bound on observations retained between Queries (memory stays bounded under floods). */
+#define LLTD_SEE_LIST_MAX 1024u
+
 #define log_debug(...) lltd_port_log_debug(__VA_ARGS__)
 #define log_warning(...) lltd_port_log_warning(__VA_ARGS__)
 #define log_err(...) lltd_port_log_warning(__VA_ARGS__)
@@ -541,7 +544,7 @@ static void parseProbe(void *inFrame, lltd_iface_state *st, void *iface_ctx) {
         }
     }
 
-    if (found) {
+    if (found || st->see_list_count >= LLTD_SEE_LIST_MAX) {
         lltd_port_free(probe);
         return;
     }
